@@ -14,7 +14,8 @@ META = {
         'R1': 'route siblings: for every (dimensionality x periodic) configuration both entry points pass identical arguments (after renaming the per-slot stream item) to '
               'the generator constructor, the r-tree builder, the boundary constructor, the selected neighbour search and the cell builder',
         'R2': 'conversion reuse: both routes create VoronoiCells through VoronoiCell::from_convex_cell with an equivalent mask (caller\'s mask vs. the activity vector built from it), '
-              'store anchor/width/dimensionality/periodic of the same values, flatten the per-cell face vectors in slot order and share Voronoi::finalize',
+              'store anchor/width/dimensionality/periodic of the same values, flatten the per-cell face vectors in slot order and share Voronoi::finalize; accessors report their fields, type-state transitions keep the configuration, '
+              'and every Clone of a crate type is a copy (derived, or evaluated to return its argument)',
         'R3': 'built-in integral siblings: AreaCentroidIntegral and the internal face integral have equal collect/finalize normal forms; VolumeIntegral and VolumeCentroidIntegral '
               'accumulate the same volume; VoronoiCell takes volume and centroid from VolumeCentroidIntegral',
         'R4': 'symmetric integrals == stored face list: identical decision tables (C03.R2 sibling check)',
@@ -132,6 +133,7 @@ def conversion(F):
 
 
 def r2(ctx, F, rule, sfx):
+    clones_are_copies(ctx, F, rule, sfx)
     rd = routes.run_route(F, 'direct')
     b, ip, v = conversion(F)
     ctx.evaluations += ip.evaluations
@@ -228,6 +230,36 @@ def r2(ctx, F, rule, sfx):
     ctx.check(rule, 'unselected-slot-record-agrees%s' % sfx, ok, 'direct %s | conversion %s' % (repr(da[0])[:90] if da else None, repr(ca[0])[:90] if ca else None), 'the same literal record on the not-constructed arm of both routes', where(fc.body, fc.line), key_extra='skipped-record')
     # direct: mask argument is the caller's (C07.R2) — and the activity vector is its copy / all-true (C07.R2)
     ctx.check(rule, 'direct:mask-is-callers%s' % sfx, repr(fd.fargs[2]) == 'mask', repr(fd.fargs[2])[:60], 'mask', where(fd.body, fd.line), key_extra='dmask')
+
+
+def clones_are_copies(ctx, F, rule, sfx):
+    """A clone of an integrator, a tessellation, a cell, a face, a half-space is the same value: every `Clone` of a crate type is the derived one, or is
+    evaluated and must return its argument (users clone integrators before converting them: `integrator.clone().with_faces()`)."""
+    from .. import tables
+    n = 0
+    for b in F.bodies:
+        p_ = b['path']
+        if not p_.endswith('as std::clone::Clone>::clone') or 'convex_cell_alternative' in p_ or '::tests::' in p_:
+            continue
+        n += 1
+        if tables._is_derived(None, b):
+            continue
+        ty = p_[1:].split(' as std::clone::Clone>')[0]
+        ip = I.Interp(F)
+        x = I.Sym(nf.sym_atom('self'), ty)
+        try:
+            v, _ = ip.call_body(b, [ip.ref_to(x, '&' + ty)])
+            same = I.vkey(I.frozen(v)) == I.vkey(I.frozen(x))
+            if not same and isinstance(v, I.St):
+                a_ = F.adt(strip_generics(ty).split('<')[0], required=False)
+                names = [f['name'] for f in a_['variants'][0]['fields']] if a_ else None
+                same = names is not None and set(map(str, v.fields)) == set(names) and all(repr(I.frozen(I.deref(fv) if hasattr(I, 'deref') else fv)) == 'self.%s' % fn_ for fn_, fv in v.fields.items())
+            obs = repr(I.frozen(v))[:160]
+        except (AnalysisIncomplete, I.Diverge, TypeError, KeyError) as e:
+            ctx.incomplete(rule, 'clone-is-a-copy:%s%s' % (ty.split('::')[-1], sfx), 'hand-written Clone could not be evaluated: %s' % str(e)[:120], where(b))
+            continue
+        ctx.check(rule, 'clone-is-a-copy:%s%s' % (ty.split('::')[-1], sfx), same, obs, 'clone() returns a value equal to self, field by field', where(b), key_extra='clone:' + ty)
+    ctx.check(rule, 'clones-of-crate-types-are-copies' + sfx, n >= 15, '%d Clone impls of crate types looked at (derived ones copy field by field)' % n, 'every Clone impl is derived or returns its argument', None, key_extra='clone-count')
 
 
 def r3(ctx, F, rule, sfx):
